@@ -208,7 +208,7 @@ func vNewRunner(sc *vScenario) (*vRunner, error) {
 		vms: map[cloud.InstanceID]*vVMInfo{}, ctrs: map[string]*vCtrTrack{},
 		decisions: map[string]*vDecision{}, inherited: map[string]map[vProcRef]bool{},
 		heldNow: map[cloud.InstanceID]bool{},
-		inflight: map[string]int{}, seenDuringStart: map[string]bool{}, hidCounted: map[string]bool{}, forceList: map[string]bool{},
+		inflight: map[string]int{}, inflightDec: map[string]*vDecision{}, seenDuringStart: map[string]bool{}, forceList: map[string]bool{},
 		rng:     rand.New(rand.NewSource(sc.Seed ^ 0x5eed)),
 		deadGen: -1, curGen: -1,
 	}
@@ -268,13 +268,17 @@ func (e *vExecutor) Execute(env map[string]string, cmd string, stdin io.Reader) 
 		m := e.m
 		m.mu.Lock()
 		m.inflight[key]++
+		if d := m.decisions[vUUIDRe.FindString(cmd)]; d != nil && !d.claimed {
+			d.claimed = true
+			m.inflightDec[key] = d
+		}
 		m.mu.Unlock()
 		defer func() {
 			m.mu.Lock()
 			if m.inflight[key]--; m.inflight[key] <= 0 {
 				delete(m.inflight, key)
+				delete(m.inflightDec, key)
 				delete(m.seenDuringStart, key)
-				delete(m.hidCounted, key)
 			}
 			m.mu.Unlock()
 		}()
@@ -683,6 +687,7 @@ func (rn *vRunner) finish(res *vResult, o vObs, start time.Time) *vResult {
 	res.WallMs = time.Since(start).Milliseconds()
 	m.bugMu.Lock()
 	bugs := append([]string(nil), m.bugs...)
+	res.Infra = append(res.Infra, m.harnessPanics...)
 	m.bugMu.Unlock()
 	m.mu.Lock()
 	defer m.mu.Unlock()
